@@ -14,7 +14,9 @@ Inductive value :=
 | VStr (s : str) | VInt (z : Z) | VNone | VBool (b : bool)
 | VList (l : list value) | VDict (l : list (value * value)) | VOther (n : N).
 
-Inductive rerr := ETemplateSyntax | EType | EValue | ESyntax | EIndex | ELeaf | EOther.
+(* EAny is only used for OBSERVED outcomes: the implementation failed while COMPILING some leaf of the attribute (all
+   leaves of an attribute are compiled before the first one is resolved); the class is Django's *)
+Inductive rerr := ETemplateSyntax | EType | EValue | ESyntax | EIndex | ELeaf | EOther | EAny.
 Inductive rres (A : Type) : Type := ROk (a : A) | RErr (e : rerr).
 Arguments ROk {A} a.
 Arguments RErr {A} e.
@@ -24,7 +26,7 @@ Definition rbind {A B} (r : rres A) (f : A -> rres B) : rres B :=
 Definition rerr_eqb (a b : rerr) : bool :=
   match a, b with
   | ETemplateSyntax, ETemplateSyntax | EType, EType | EValue, EValue | ESyntax, ESyntax | EIndex, EIndex
-  | ELeaf, ELeaf | EOther, EOther => true
+  | ELeaf, ELeaf | EOther, EOther | EAny, EAny => true
   | _, _ => false
   end.
 
@@ -74,6 +76,33 @@ Definition iter_value (v : value) : option (list value) :=
   | VStr s => Some (map (fun c => VStr [c]) s)
   | VDict l => Some (map fst l)
   | _ => None
+  end.
+
+(* `resolved_dict.update(x)` for a `**x` entry: a dict, or - dict.update being what it is - any iterable of
+   2-element sequences (a list of pairs / 2-character strings; the empty string and the empty list change nothing) *)
+Definition pair_of_value (x : value) : rres (value * value) :=
+  match x with
+  | VList [k; v] => ROk (k, v)
+  | VStr [a; b] => ROk (VStr [a], VStr [b])
+  | VList _ | VStr _ => RErr EValue          (* "dictionary update sequence element has length n; 2 is required" *)
+  | VDict _ => RErr EOther                   (* a dict as element would contribute two of its keys - not modelled *)
+  | _ => RErr EType                          (* "cannot convert dictionary update sequence element to a sequence" *)
+  end.
+Fixpoint update_pairs (acc : list (value * value)) (l : list value) : rres (list (value * value)) :=
+  match l with
+  | [] => ROk acc
+  | x :: r => match pair_of_value x with
+              | ROk (k, v) => if hashable k then update_pairs (dict_set k v acc) r else RErr EType
+              | RErr e => RErr e
+              end
+  end.
+Definition dict_update_any (acc : list (value * value)) (v : value) : rres (list (value * value)) :=
+  match v with
+  | VDict d => ROk (dict_update acc d)
+  | VList l => update_pairs acc l
+  | VStr [] => ROk acc
+  | VStr _ => RErr EValue
+  | _ => RErr EType                           (* not iterable *)
   end.
 
 (* ---------- TagValue.compile: the text handed to FilterExpression ---------- *)
@@ -151,9 +180,9 @@ Fixpoint resolve_node (e : evaluator) (n : node) : rres value :=
                           end in
              if is_sp then
                if is_some pending then RErr ETemplateSyntax
-               else match v with
-                    | VDict d => go r (dict_update acc d) pending
-                    | _ => RErr EType
+               else match dict_update_any acc v with
+                    | ROk acc' => go r acc' pending
+                    | RErr e => RErr e
                     end
              else
                match pending with
@@ -222,6 +251,8 @@ Notation param := (option value * value)%type (only parsing).   (* key (any Pyth
 
 Definition key_truthy (k : option str) : bool := match k with Some (_ :: _) => true | _ => false end.
 
+Definition is_str_value (v : value) : bool := match v with VStr _ => true | _ => false end.
+
 Fixpoint resolve_params_go (e : evaluator) (attrs : list attr) : rres (list param) :=
   match attrs with
   | [] => ROk []
@@ -233,7 +264,10 @@ Fixpoint resolve_params_go (e : evaluator) (attrs : list attr) : rres (list para
         if is_some (node_spread (a_value a)) then
           if key_truthy (a_key a) then RErr EValue
           else match v with
-               | VDict d => ROk (map (fun kv => (Some (fst kv), snd kv)) d)
+               | VDict d =>
+                 (* `if not isinstance(key, str): raise TypeError(... keywords must be strings ...)` (fix 87d326f) *)
+                 if forallb is_str_value (map fst d) then ROk (map (fun kv => (Some (fst kv), snd kv)) d)
+                 else RErr EType
                | _ => match iter_value v with
                       | Some vs => ROk (map (fun x => (None, x)) vs)
                       | None => RErr EValue
@@ -398,6 +432,7 @@ Definition check_run (keywords : list str) (c : rcase) : bool :=
     value_sim 20 (VList args) (VList args') && value_sim 20 (VDict kw) (VDict kw')
     && flags_sim flags flags' && Bool.eqb closed closed'
   | RErr ELeaf, RFail _ => true      (* the exception class of a failing leaf is Django's *)
+  | RErr _, RFail EAny => true       (* a leaf of the attribute does not compile: some error, before anything is resolved *)
   | RErr e, RFail e' => rerr_eqb e e'
   | _, _ => false
   end.
